@@ -309,6 +309,21 @@ CHECKS = {
 
 PLANNED = {}
 
+# round 7: what each check gained (appended to the level text)
+ROUND7 = {
+    "C01": " Round 7: the event function of an impulse (ScheduledImpulse.__call__) and the query getRelevantEvents builds (its .filter comparisons read as a row predicate) are TRANSLATED from /repo on every run; RV.Bridge.Thrust proves the event value changes sign at the impulse's own time only and is zero exactly inside finfo.resolution, RV.Bridge.EventsQuery proves the query IS the model's `relevant` predicate (half-open window, named instance only).",
+    "C15": " Round 7: ScheduledFiniteThrust.__call__, getStateChangeCallback and one pass of Celestial._prepEvents' re-arm loop are TRANSLATED from /repo on every run; RV.Bridge.Thrust proves the event function has its root at the start while off and at the END while on, the callback switches on iff the end is at least 1e-9 (as binary64 reads it, within 1e-25 of the model's) away, and the re-arm fold is the model's prepSlot with flags armedAfterPrep.",
+    "C17": " Round 7: the three detectors' __call__ methods and oneSidedChiSquareTest are TRANSLATED from /repo on every run (chi2.isf a function parameter, the deques lists); RV.Bridge.Detect proves them to be the model's standardStep / Sliding.step / Fading.step and the decision to be `detect` (strict <: a statistic that reaches the bound is a detection); exact histories whose statistic IS the bound (significance found by scanning doubles) exercise that equality on the real code.",
+    "C04": " Round 7: dayOfYear is TRANSLATED from /repo on every run and RV.Bridge.Conversions proves it equal to the model's for every year and month 1-12; the check runs in a daylight-saving time zone (TZ=EST5EDT,M3.2.0,M11.1.0) with probes at its switch instants, compares the absolute Earth-fixed orientation with the 1982 mean sidereal time less precession (6e-4 rad), converts a neighbouring observer 1-70 m away first in half of the razel cases and lays range/elevation/azimuth off along the observer's own horizon axes.",
+    "C11": " Round 7: RV.Bridge.Conversions (dayOfYear translated from /repo) is audited with this check; sites within 60 deg of the equator are also compared with an absolute reference (right ascension = 1982 mean sidereal time + east longitude - precession, 6e-4 rad); starts in January-March of leap years.",
+    "C12": " Round 7: EquinoctialElements.fromECI/fromCOE(...).toECI() for both element sets (found defect 691b191); COE configurations that carry two spellings of an angle with the first exactly 0.0.",
+    "C14": " Round 7: satellites exactly on the Earth-Sun line behind the Earth (found defect 560e552); ConicFoV.inFieldOfView is TRANSLATED from /repo (half the cone; reflexive; monotone in the cone).",
+    "C02": " Round 7: Sensor.canSlew and ConicFoV.inFieldOfView are TRANSLATED from /repo on every run (RV.Bridge.Geometry: reachable iff slew rate x time since last tasked covers the separation; waiting longer never loses reachability).",
+    "C07": " Round 7: 30 % of the small cases are decided by a real CentralizedTaskingEngine living through several steps (generateTasking, decision matrix and task rows), half of them after a step with the same rewards and another visibility.",
+    "C08": " Round 7: the engine's observation list is compared between completion orders as a SEQUENCE (it is what the filters stack and the rows are written from), not only as a multiset.",
+    "C10": " Round 7: impulses inside steps, a third (one pinned) inside the very first step of the run; variant drop_maneuvering (the others fly as if the manoeuvring target had never been there).",
+}
+
 
 def main():
     props = [json.loads(l) for l in (VERIF / "properties.jsonl").read_text().splitlines() if l.strip()]
@@ -324,7 +339,7 @@ def main():
                 "evidence_file": f"evidence/{pid}.json",
                 "replay_cmd_template": f"./check {pid} --replay {{path}}",
                 "engine": "lean-model+correspondence",
-                "level_claimed": {"category": "proof", "text": c["text"], "design_ref": c["ref"]},
+                "level_claimed": {"category": "proof", "text": c["text"] + ROUND7.get(pid, ""), "design_ref": c["ref"]},
                 "level_note": c["note"],
                 "technique": c["technique"],
             })
